@@ -18,6 +18,7 @@ RULE = ("one case per (table set, mother, stable set, container type); non-trivi
 ANCHORS = ["decaylanguage.dec.dec:DecFileParser.build_decay_chains", "decaylanguage.dec.dec:DecFileParser._find_decay_modes",
            "decaylanguage.dec.dec:DecFileParser._decay_mode_details"]
 WORKERS = {"quick": 4, "thorough": 16}
+WTESTS = {"groups": ['parser_chains'], "tests": ['tests/dec', 'tests/decay']}
 REQUIRED = {"depth>=3": 50, "repeated-daughter-in-line": 50, "empty-block-daughter": 20, "S-cuts-at-depth>=2": 50, "lines>=4": 50, "not-found-raises": 20,
             "S-contains-direct-daughters": 50, "S-as-set": 20, "S-as-tuple": 20, "S-all-subsets": 10, "daughters>=3": 50, "alias-mother": 10,
             "corpus-mother": 20, "photos-line-in-chain": 20, "C09.build_decay_chains.is_unfolding": 300}
